@@ -58,6 +58,9 @@ func chooseHost(p *Program, allow, force map[string]bool) {
 	if len(p.Kernels) >= 2 && allow["reup"] && (force["reup"] || r.Chance(1, 3)) {
 		p.ReupAfter = r.Intn(len(p.Kernels) - 1)
 	}
+	if len(p.Kernels) >= 2 && p.ReupAfter < 0 && allow["host_enqueue_all"] && (force["host_enqueue_all"] || r.Chance(1, 4)) {
+		p.EnqueueAll = true
+	}
 	if p.Motifs == nil {
 		p.Motifs = map[string]int{}
 	}
@@ -73,6 +76,14 @@ func chooseHost(p *Program, allow, force map[string]bool) {
 	if p.ReupAfter >= 0 {
 		feat = append(feat, "reup")
 		p.Motifs["host|re-upload-between-kernels"]++
+	}
+	if len(p.Kernels) >= 2 {
+		if p.EnqueueAll {
+			feat = append(feat, "host_enqueue_all")
+			p.Motifs["host|enqueue-all-then-drain"]++
+		} else {
+			p.Motifs["host|drain-per-kernel"]++
+		}
 	}
 	if len(p.Kernels) > 0 {
 		p.Kernels[0].Feat = append(p.Kernels[0].Feat, feat...)
